@@ -158,20 +158,22 @@ type snode struct {
 	mod *statesync.Module
 	tr  *simTransport
 
-	bornAt    time.Duration // first start
-	startedAt time.Duration // last (re)start
-	fromStart bool
-	restarts  int
-	checked   uint32 // agreement checked up to this height
-	base      uint32 // lowest height the node holds state for (a state-synchronised node: its sync point)
-	jumped    bool
-	caughtUp  time.Duration // when the node first was within 2 blocks of the top after its last start (0: not yet)
-	seenRej   int
-	seenAppr  int
-	seenUndec int
-	ownBlocks map[uint32]string
-	h20       uint32 // height 20 block times after the start of the run
-	has20     bool
+	bornAt     time.Duration // first start
+	startedAt  time.Duration // last (re)start
+	fromStart  bool
+	restarts   int
+	checked    uint32 // agreement checked up to this height
+	base       uint32 // lowest height the node holds state for (a state-synchronised node: its sync point)
+	jumped     bool
+	inStep     time.Duration // when the node first was at the top height after its last start (0: not yet)
+	gapAtStart int           // top height minus own height at the last (re)start
+	caughtUp   time.Duration // when the node first was within 2 blocks of the top after its last start (0: not yet)
+	seenRej    int
+	seenAppr   int
+	seenUndec  int
+	ownBlocks  map[uint32]string
+	h20        uint32 // height 20 block times after the start of the run
+	has20      bool
 }
 
 func (v *snode) validator() bool { return v.kind == srvValidator }
@@ -312,6 +314,11 @@ func (s *srvSim) startServer(v *snode) {
 	s.mu.Unlock()
 	v.startedAt = s.now()
 	v.caughtUp = 0
+	v.inStep = 0
+	v.gapAtStart = int(s.top()) - int(v.n.BC.BlockHeight())
+	if v.gapAtStart > 32 {
+		s.r.out.Probes["node_started_more_than_a_block_queue_behind"]++
+	}
 	// the number of transaction handler goroutines is min(GOMAXPROCS, NumCPU, 16): one, as on a single-core host
 	old := runtime.GOMAXPROCS(1)
 	srv.Start()
